@@ -283,41 +283,90 @@ def _write(path, recs):
 CFG = "INIT Init\nNEXT Next\nINVARIANT %s\nCHECK_DEADLOCK FALSE\n"
 
 
+MAX_BATCH = 25000  # recorded answers (or plan cases / histories) per TLC run
+
+
+def run_batches(ctx, module, cfg, batches, what, count, weight=len):
+    """One TLC run per batch of ndjson records, up to VERIF_NPROC/2 side by side, each in its own
+    work directory.  Raises Machinery unless every run completes without error; returns the results."""
+    from concurrent.futures import ThreadPoolExecutor
+
+    from . import tlc as _tlc
+
+    nproc = int(os.environ.get("VERIF_NPROC", "0")) or min(16, os.cpu_count() or 4)
+    side = max(1, min(len(batches), nproc // 2))
+    base = len(ctx.tlc_runs)
+
+    def one(k):
+        wd = os.path.join(ctx.work, "batch_%d_%d" % (base, k))
+        os.makedirs(wd, exist_ok=True)
+        path = os.path.join(wd, "recs.ndjson")
+        _write(path, batches[k])
+        r = _tlc.run(module, cfg, wd, workers=max(2, min(8, nproc // side)), env={"REC_FILE": path}, timeout=3000)
+        try:
+            os.remove(path)
+        except OSError:
+            pass
+        return r
+
+    with ThreadPoolExecutor(side) as ex:
+        results = list(ex.map(one, range(len(batches))))
+    for k, r in enumerate(results):
+        if count:
+            ctx.states += r.distinct
+            ctx.transitions += r.generated
+        ctx.tlc_runs.append({"module": module, "what": "%s [batch %d/%d: %d]" % (what, k + 1, len(batches), weight(batches[k])), "generated": r.generated, "distinct": r.distinct, "depth": r.depth, "wall_s": round(r.wall, 2), "ok": r.ok, "violated": r.violated})
+        if not r.ok:
+            raise Machinery("TLC run '%s' batch %d on %s failed: violated=%s rc=%s\n%s" % (what, k + 1, module, r.violated, r.rc, r.out[-4000:]))
+        if r.distinct < len(batches[k]):
+            raise Machinery("%s batch %d: TLC visited %d states for %d records" % (what, k + 1, r.distinct, len(batches[k])))
+    return results
+
+
+def chunks_by(records, weight, limit=MAX_BATCH):
+    out, cur, w = [], [], 0
+    for r in records:
+        wr = weight(r)
+        if cur and w + wr > limit:
+            out.append(cur)
+            cur, w = [], 0
+        cur.append(r)
+        w += wr
+    if cur:
+        out.append(cur)
+    return out
+
+
 def plan(ctx, cases, workers=8):
-    """cases: [{id, q, S}] -> {id: {lt, cls, descr, anti}} from TLC (exact ranks, distance
-    classes, descriptors <<|q x s|^2, q.s>>, exact antipode flags)."""
+    """cases: [{id, q, S}] -> {id: {lt, cls, descr, anti, radii, zero, purity}} from TLC (exact ranks,
+    distance classes, descriptors <<|q x s|^2, q.s>>, exact antipode flags, radius and purity plans)."""
     if not cases:
         return {}
     for c in cases:
         check_int_bounds(c["q"], c["S"])
-    path = os.path.join(ctx.work, "plan_%d.ndjson" % len(ctx.tlc_runs))
-    _write(path, [{"id": c["id"], "q": c["q"], "S": c["S"]} for c in cases])
-    r = ctx.tlc_ok("JudgeNearest", CFG % "Plan", what="plan %d neighbour cases (exact ranks, classes, descriptors)" % len(cases), env={"REC_FILE": path}, workers=workers, timeout=3000)
-    os.remove(path)
+    batches = chunks_by([{"id": c["id"], "q": c["q"], "S": c["S"]} for c in cases], lambda r: 5)
     out = {}
-    for v in r.prints:
-        if isinstance(v, tuple) and len(v) == 9 and v[0] == "P":
-            out[v[1]] = {"lt": list(v[2]), "cls": list(v[3]), "descr": [tuple(d) for d in v[4]], "anti": list(v[5]), "radii": [dict(x) for x in v[6]], "zero": sorted(v[7]), "purity": {"container": v[8]["container"], "batched": bool(v[8]["batched"]), "repeats": int(v[8]["repeats"]), "ops": list(v[8]["ops"])}}
+    for r in run_batches(ctx, "JudgeNearest", CFG % "Plan", batches, "plan neighbour cases (exact ranks, classes, descriptors, radius and purity plans)", True):
+        for v in r.prints:
+            if isinstance(v, tuple) and len(v) == 9 and v[0] == "P":
+                out[v[1]] = {"lt": list(v[2]), "cls": list(v[3]), "descr": [tuple(d) for d in v[4]], "anti": list(v[5]), "radii": [dict(x) for x in v[6]], "zero": sorted(v[7]), "purity": {"container": v[8]["container"], "batched": bool(v[8]["batched"]), "repeats": int(v[8]["repeats"]), "ops": list(v[8]["ops"])}}
     if len(out) != len(cases):
         raise Machinery("plan: %d of %d cases came back" % (len(out), len(cases)))
     return out
 
 
 def judge(ctx, records, workers=8):
-    """records: [{id, q, S, ents}] -> {id: set((j, clause))} decided by TLC."""
+    """records: [{id, q, S, ents}] -> {id: set((j, clause))} decided by TLC, in batches of at most
+    MAX_BATCH recorded answers per TLC run."""
     records = [r for r in records if r["ents"]]
     if not records:
         return {}
-    path = os.path.join(ctx.work, "judge_%d.ndjson" % len(ctx.tlc_runs))
-    _write(path, records)
-    r = ctx.tlc_ok("JudgeNearest", CFG % "Judge", what="judge %d cases / %d recorded answers" % (len(records), sum(len(x["ents"]) for x in records)), env={"REC_FILE": path}, workers=workers, count=False, timeout=3000)
-    os.remove(path)
-    if r.distinct < len(records):
-        raise Machinery("judge visited %d states for %d records" % (r.distinct, len(records)))
+    batches = chunks_by(records, lambda r: len(r["ents"]))
     out = {}
-    for v in r.prints:
-        if isinstance(v, tuple) and len(v) == 3 and v[0] == "V":
-            out[v[1]] = {(int(x[0]), str(x[1])) for x in v[2]}
+    for r in run_batches(ctx, "JudgeNearest", CFG % "Judge", batches, "judge recorded answers", False, weight=lambda b: sum(len(x["ents"]) for x in b)):
+        for v in r.prints:
+            if isinstance(v, tuple) and len(v) == 3 and v[0] == "V":
+                out[v[1]] = {(int(x[0]), str(x[1])) for x in v[2]}
     ctx.traces += sum(len(x["ents"]) for x in records)
     return out
 
